@@ -76,6 +76,9 @@ def gen_shape(rng, nmin=2, nmax=9, mix=None, pri="small", seq_rate=0.2, flags=Tr
                 nd["kwargs"]["k%d" % j] = a
             else:
                 nd["args"].append(a)
+        dup = [a_ for a_ in nd["args"] if a_[0] == "n"]
+        if kinds and dup and rng.random() < 0.08:
+            nd["args"].append(list(rng.choice(dup)))  # the same result passed twice to one call (mul(v, v))
         if rng.random() < 0.3:
             nd["args"].append(["p", "x"])
         if rng.random() < 0.15:
